@@ -167,7 +167,11 @@ def walk_record(ordinal, steps, s, e, total, tags=True, cg=True):
     if cg:
         # the CIGAR field sits last, in the middle or first, by record ordinal
         opt.insert((len(opt), 1, 0)[ordinal % 3] if tags else 0, "cg:Z:" + cig)
-    return rgfa.Rec(f"r{ordinal}", n + 2, 1, 1 + n, "+", rgfa.steps_str(steps), total, s, e, matches, n, 60, opt)
+    if tags and ordinal % 7 == 4:
+        opt.insert(ordinal % (len(opt) + 1), "rg:Z:sample A lane 2")  # a Z value with blanks
+    # read names as sequencers write them: some start with '@' or '#', some carry '/1'
+    name = (f"r{ordinal}", f"@r{ordinal}/1", f"#r{ordinal}")[(0, 0, 0, 1, 0, 0, 2)[ordinal % 7]]
+    return rgfa.Rec(name, n + 2, 1, 1 + n, "+", rgfa.steps_str(steps), total, s, e, matches, n, 60, opt)
 
 
 def canonical_walk(graph, steps, s, e):
